@@ -5,6 +5,11 @@ HERE = os.path.dirname(os.path.dirname(os.path.abspath(__file__)))
 
 # id -> (technique, level text, level note, design ref)
 CHECKS = {
+ "C16": (
+  "hypothesis PBT on haplotype records written as VCF text with a decimal-exact oracle (thresholds drawn equal to record values, all operators/spellings, invalid strings), plus generated CLI pipelines with rewritten INFO/AFP vectors (zeros, all-zero) through call, call-exact, call-pedigree",
+  "Exploration: generated records with R/A Float/Integer INFO fields: ALT after filtering is exactly the passing ALTs in order, a failing reference is kept and masked, frequencies are the named values normalised over retained alleles (masked ref 0, all-zero -> NaN), wrong-length tags and invalid filter strings raise ValueError; at CLI level ALT/REFMASKED/AFPRIOR of the three programs match the decimal oracle, masked/zero-prior alleles never appear in a GT and have zero AFP/ACP/AOP/GP, and records without a usable allele are emitted with NOA/AF0 and missing calls instead of aborting.",
+  "Predicate evaluated on the decimal text; frequencies at 1e-6 (single-precision INFO floats); AFPRIOR within the print band.",
+  "DESIGN.md §4 C16"),
  "C12": (
   "hypothesis PBT round trip on generated haplotype records parsed from VCF text + generated-dataset pipeline assemble -> call / call-exact with record-by-record comparison",
   "Exploration: thousands of generated fixed-length multi-allelic records (incl. ALT-less, SNV-less, tri-allelic columns, SNVPOS supersets, REFMASKED): encode -> format reproduces the sequences, alleles are numbered by first appearance with REF=0, recovered SNV positions are the polymorphic columns; generated datasets assembled under threshold/report variants (REFMASKED, ALT-less records) and piped through call and call-exact: CHROM/POS/REF/ALT unchanged, genotypes complete unless NOA/AF0, masked reference never called.",
